@@ -21,4 +21,23 @@ PROPS = {
         "monitor 'table': random finite state spaces (2..8 states, dyadic log-p/log-q tables with -inf/+inf/NaN entries, state element types f32/f64/i32/usize x float types f32/f64, extra state coordinates holding NaN payloads/-0.0/extremes); for every ordered pair (x,y) the real MHMarkovChain::step is executed with a scripted candidate and an acceptance draw injected through the public rng field (u=0, smallest positive, 1-ulp, 0.5, random, plus a bisection over all representable u for the decision boundary); oracle: moved <=> ln u < ratio in F, bitwise state comparison, realised acceptance probability = min(1,exp(ratio)), detailed balance on the realised probabilities. monitor 'shadow': real programs (library Gaussian2D/IsotropicGaussian, asymmetric log-normal random walk, independence sampler, reflecting integer walk, -inf and NaN-region targets); u read from a clone of chain.rng before each step, candidate recorded by a wrapper; predicted state compared bit for bit. A case is distinct by (monitor, types, table shape/flags) or (program, float type, seed) and each observed decision boundary position; non-trivial = at least one step executed and checked.",
         ["the acceptance draw is the next uniform of the chain's public rng field (the property's own anchor); it is read back from a clone, never assumed from the crafted state"],
     ),
+    "C05": P(
+        "recording Conditional whose every answer is a globally unique value (call counter encoded in the number, sometimes NaN payloads/subnormals); element types f64/f32/i32, d in 1..64, 1..60 steps; either direct GibbsMarkovChain::step calls or GibbsSampler::run with 1..16 chains under rayon pools of 1/2/3/8/16 threads. History checker: per step the indices asked are exactly {0..d-1}, every `given` equals (bit for bit) the shadow state with all earlier answers of the same step written in, the state after the step equals the shadow, and every collected row of run() equals the swept state. Distinct by (type, d, weird-values flag, steps); non-trivial = at least one full sweep checked.",
+        ["the joint-invariance consequence is not re-derived here; C06 checks Gibbs output moments statistically"],
+    ),
+    "C07": P(
+        "configurations (sampler kind in MH with user-seeded proposal / MH with freshly constructed proposal / Gibbs with a state-deterministic conditional / HMC f64 / HMC f32 / NUTS; 1..6 chains; dim 1..4; run lengths; seeds random and {0,1,2^32,u64::MAX-k,u64::MAX}); for each: output bytes of run() compared across repeated construction, a rayon pool of 1/2/3/8/16 threads, 1..3 other samplers (incl. HMC/NUTS and direct draws from burn's process-global generator) running concurrently in other threads, run_progress (NUTS: shifted by one draw) for every 4th case, and seed+1 (must differ when any chain moved). init_with_seed/init_det purity on n in 0..40, d in 0..12. Distinct by configuration and by output hash; non-trivial = outputs compared.",
+        ["'same inputs' for MH includes a proposal built by the same constructor expression without an explicit set_seed (the sampler seed is documented to make runs reproducible)",
+         "thread interleavings are those the OS scheduler produced during the run (plus Miri/TSan passes in the thorough tier); no schedule enumeration"],
+        env={},
+    ),
+    "C08": P(
+        "multi-chain samplers with 2..64 chains all started from one common state, seeded (seeds incl. 0 and values whose per-chain offsets wrap) and unseeded: MH with the library's IsotropicGaussian and with a user-defined seedable proposal exposing its generator (proposal seeded by the user or not), HMC batches, NUTS. Observed: next 4 outputs of clones of chains[i].rng, next proposal from the common state drawn from clones of chains[i].proposal, what the proposal would draw if its generator were a copy of the acceptance generator, and trajectories; oracle: all chain pairs differ in acceptance stream, proposal stream and in state at the first step where either moves; acceptance generator != proposal generator within a chain. Distinct by configuration.",
+        ["two generators are 'the same stream' iff their next 4 64-bit outputs coincide"],
+    ),
+    "C09": P(
+        "monitor 'counting': user-defined MarkovChain/HasChains whose state is (transition count, chain id, mixed) for element types f64/i32/f32; n_chains 1..32, dim 1..16, sequences of 1..3 run(n_collect 0..40, n_discard 0..40) calls, rayon pools 1/2/3/5/8/16, optional per-chain sleeps; every cell must identify chain c after n_discard+k+1 transitions since the call, step counters must equal n_collect+n_discard. monitor 'real': MH/Gibbs/HMC seeded twins: run(a,d)+run(b,0) == run(a+b,d) bit for bit == manual stepping, HMC step count from the hook trace; NUTS: multi-chain runner == individually seeded chains, row k == traced state after n_discard+k transitions, transitions == n_collect+n_discard-1. Distinct by (type, n_chains, n_collect, n_discard, dim, threads) resp. sampler configuration.",
+        ["seeded twins are bit-reproducible (C07)"],
+        env={},
+    ),
 }
